@@ -41,6 +41,17 @@ func c06Contents(table string) [][][]any {
 			out = append(out, [][]any{row(k1, 0), row(k2, 1)})
 		}
 	}
+	// a row whose non-key columns are NULL (the keys never are), behind a row that has values there: a real NULL
+	// must come back as NULL on either side of every join, whatever the rows before it held
+	if table != "v" {
+		for _, k1 := range []int64{1, 2} {
+			null := []any{int64(2), nil}
+			if table == "t" {
+				null = []any{int64(2), nil, nil}
+			}
+			out = append(out, [][]any{row(k1, 0), null})
+		}
+	}
 	return out
 }
 
@@ -161,7 +172,7 @@ func runC06(env *lib.Env, rep *lib.Report) {
 	rep.Bounds["FROM clauses with a repeated table id"] = fmt.Sprintf("%d (unaliased self-join, two tables under one alias, the same table twice under one alias, an alias equal to another table's name, t JOIN u JOIN t; ON 1 = 1 and ON k = 1): SELECT k and ON k = 1 must be rejected", nDup)
 	rep.Bounds["FROM clauses"] = fmt.Sprintf("%d join chains (1..2 joins; INNER JOIN / JOIN / LEFT JOIN / RIGHT JOIN; self-joins under aliases; 11 ON conditions incl. an ambiguous unqualified name behind AND / OR, AND/OR, mixed AND/OR of three atoms and constants)", len(froms))
 	cT, cU, cV := c06Contents("t"), c06Contents("u"), c06Contents("v")
-	rep.Bounds["table contents"] = fmt.Sprintf("%d x %d x %d: all multisets of <= 2 rows over keys {1,2} per table (empty sides, duplicate keys)", len(cT), len(cU), len(cV))
+	rep.Bounds["table contents"] = fmt.Sprintf("%d x %d x %d: all multisets of <= 2 rows over keys {1,2} per table (empty sides, duplicate keys); for t and u also two contents whose second row has NULL in every non-key column", len(cT), len(cU), len(cV))
 	rep.Bounds["select lists per FROM"] = "*; all columns qualified by table id; unqualified unique column; unqualified ambiguous column k (must be rejected); column qualified by the table name although an alias exists (must be rejected)"
 	n := 0
 	for _, rt := range cT {
